@@ -1,7 +1,9 @@
 package main
 
 import (
+	"encoding/json"
 	"fmt"
+	"math/rand"
 	"os"
 	"strconv"
 	"strings"
@@ -212,6 +214,60 @@ func init() {
 				}
 				writeTrace(map[string]any{"ev": "deepconc", "depth": d, "goroutines": gor, "rounds": rounds, "evals": evals, "wrong": wrong, "errors": errs})
 			}
+		case "coldconc":
+			// a freshly compiled expression (never executed before) is first executed by 8 goroutines at once on a shared
+			// tree; afterwards one more serial execution must agree with all of them (depth 0 = not about depth)
+			rng := rand.New(rand.NewSource(seedFromEnv()*104729 + int64(a.sub)))
+			g := &Gen{r: rng}
+			b, err := Build(g.Doc(30))
+			if err != nil {
+				fmt.Println("scale-record: cannot build the document:", err)
+				return 2
+			}
+			rounds, gor := 300, 8
+			if thorough {
+				rounds = 2000
+			}
+			evals, wrong, errs := 0, 0, 0
+			for r := 0; r < rounds; r++ {
+				e := g.Any(2)
+				text, rerr := Render(e, Style{Abbrev: r%2 == 0, Space: 1})
+				if rerr != nil {
+					r--
+					continue
+				}
+				gr, berr := xsel.BuildExpr(text)
+				if berr != nil {
+					continue // (open grammar findings)
+				}
+				st, _ := b.settings(&Env{Ns: NsMap{"p": uriU1, "q": uriU2}}, nil)
+				ctx := b.ByID[1+rng.Intn(len(b.Doc))]
+				outs := make([]string, gor)
+				var wg sync.WaitGroup
+				start := make(chan struct{})
+				for k := 0; k < gor; k++ {
+					wg.Add(1)
+					go func(k int) {
+						defer wg.Done()
+						<-start
+						j, _ := json.Marshal(obsJSON(b, execSafe(ctx, &gr, st)))
+						outs[k] = string(j)
+					}(k)
+				}
+				close(start)
+				wg.Wait()
+				j, _ := json.Marshal(obsJSON(b, execSafe(ctx, &gr, st)))
+				for k := 0; k < gor; k++ {
+					evals++
+					if outs[k] != string(j) {
+						wrong++
+					}
+					if strings.Contains(outs[k], "xpath query panic") || strings.Contains(outs[k], `"t":"panic"`) {
+						errs++
+					}
+				}
+			}
+			writeTrace(map[string]any{"ev": "deepconc", "depth": 0, "goroutines": gor, "rounds": evals / gor, "evals": evals, "wrong": wrong, "errors": errs})
 		default:
 			return 2
 		}
